@@ -958,7 +958,7 @@ def run(ctx):
     if thorough:
         # all pairs over the catalogue and all triples over the larger reduced catalogue; 4-stacks over a smaller one
         exhaustive_world(ctx, world, defects, base, 2, 3, 2, 3, procs)
-        deep = World('base-polygon-deep', world.layers, world.cov_type, world.reduced[:10])
+        deep = World('base-polygon-deep', world.layers, world.cov_type, world.reduced[:9] + ['r_n_xs'])
         exhaustive_world(ctx, deep, defects, base, 1, 4, 1, 4, procs)
         exhaustive_world(ctx, wb, defects, base, 2, 3, 2, 3, procs)
     else:
